@@ -170,6 +170,12 @@ func (r *Reader) ReadPacketUsing(buf []byte) (pkt Packet, err error) {
 			// increment the message id so that we do not accept any frames
 			// with the same id.
 			r.id.Message++
+			if r.id.Message == 0 {
+				// message ids of this stream are used up: only a later
+				// stream may follow, do not wrap around to accepting
+				// every id of this one again.
+				r.id.Stream++
+			}
 			return pkt, nil
 		}
 	}
